@@ -128,6 +128,19 @@ func c13Compare(c *explore.Ctx, sig string, f, g *cff.Font, desc any) {
 			return
 		}
 	}
+	// real numbers of the private dictionaries to nine significant digits (the margin of c13cmp is meant for
+	// coordinates)
+	for i := 0; i < len(fo.Private) && i < len(gro.Private); i++ {
+		a, b := fo.Private[i], gro.Private[i]
+		if a == nil || b == nil {
+			continue
+		}
+		for _, p := range [][2]float64{{a.BlueScale, b.BlueScale}, {a.StdHW, b.StdHW}, {a.StdVW, b.StdVW}} {
+			if math.Abs(p[0]-p[1]) > 1e-8*math.Max(math.Abs(p[0]), math.Abs(p[1]))+1e-15 {
+				c.Fail("C13.private", sig+" / real number", "private dictionary %d: %v comes back as %v (%v)", i, p[0], p[1], desc)
+			}
+		}
+	}
 	if d := cmp.Diff(fo.Private, gro.Private, c13cmp...); d != "" {
 		c.Fail("C13.private", sig+" / "+diffSig(d), "private dictionaries differ (%v):\n%s", desc, trimDiff(d))
 	}
